@@ -4,6 +4,7 @@
 import gdb, json, os, re
 req = json.load(open(os.environ['G2C_REQ']))
 out = {'defs': [], 'errors': []}
+extent_only = {}
 
 def cname_struct(t):
     n = t.strip_typedefs().name or t.name
@@ -29,7 +30,23 @@ def c_init(v):
                 return '0'
             s = v.string()
             return '"' + s.replace('\\', '\\\\').replace('"', '\\"').replace('\n', '\\n') + '"'
-        raise RuntimeError('pointer member of unsupported kind')
+        # pointer to another table of the same object: name the table, declare it by extent only (contents not modelled)
+        if int(v) == 0:
+            return '0'
+        info = gdb.execute('info symbol 0x%x' % int(v), to_string=True).strip()
+        m = re.match(r'^(\S+) in section', info)
+        if not m:
+            raise RuntimeError('pointer to %s: not the start of a symbol' % info)
+        tgt = m.group(1)
+        sym = gdb.lookup_global_symbol(tgt) or gdb.lookup_static_symbol(tgt)
+        if sym is None or not sym.linkage_name:
+            raise RuntimeError('pointer to %s: no linkage name' % tgt)
+        tv = gdb.parse_and_eval("'%s'" % tgt)
+        if tv.type.strip_typedefs().code != gdb.TYPE_CODE_ARRAY:
+            raise RuntimeError('pointer to %s: not an array' % tgt)
+        if sym.linkage_name not in extent_only:
+            extent_only[sym.linkage_name] = '/* %s: extent only, contents not modelled */\n%s;' % (tgt, c_decl(tv.type, sym.linkage_name))
+        return sym.linkage_name
     raise RuntimeError('unsupported member type %s' % t)
 
 def c_decl(t, name):
@@ -40,10 +57,23 @@ def c_decl(t, name):
     if t.code in (gdb.TYPE_CODE_STRUCT, gdb.TYPE_CODE_UNION):
         return 'struct %s %s' % (cname_struct(t), name)
     if t.code == gdb.TYPE_CODE_PTR:
+        tg = t.target().strip_typedefs()
+        if tg.code in (gdb.TYPE_CODE_STRUCT, gdb.TYPE_CODE_UNION):
+            return 'struct %s *%s' % (cname_struct(tg), name)
         return 'const char *%s' % name
     return 'long %s' % name
 
 for q in req.get('globals', []):
+    if q.startswith('extent:'):
+        # a table whose contents no clause depends on: declared by extent only
+        q = q[len('extent:'):]
+        try:
+            sym = gdb.lookup_global_symbol(q) or gdb.lookup_static_symbol(q)
+            v = gdb.parse_and_eval("'%s'" % q)
+            extent_only[sym.linkage_name] = '/* %s: extent only, contents not modelled */\n%s;' % (q, c_decl(v.type, sym.linkage_name))
+        except Exception as e:
+            out['errors'].append('%s: %s' % (q, e))
+        continue
     try:
         sym = gdb.lookup_global_symbol(q) or gdb.lookup_static_symbol(q)
         v = gdb.parse_and_eval("'%s'" % q)
@@ -53,4 +83,5 @@ for q in req.get('globals', []):
         out['defs'].append('/* %s: initialised data of the compiled translation unit */\n%s = %s;' % (q, c_decl(v.type, ln), c_init(v)))
     except Exception as e:
         out['errors'].append('%s: %s' % (q, e))
+out['defs'] = list(extent_only.values()) + out['defs']
 json.dump(out, open(os.environ['G2C_OUT'], 'w'))
